@@ -20,6 +20,7 @@ type Clock struct {
 	tickEvery atomic.Int64
 	tickBy    atomic.Int64
 	ticks     atomic.Int64
+	onRead    atomic.Value // func(time.Time)
 }
 
 func NewClock(start time.Time) *Clock {
@@ -34,8 +35,15 @@ func (c *Clock) Now() time.Time {
 		c.ns.Add(c.tickBy.Load())
 		c.ticks.Add(1)
 	}
-	return time.Unix(0, c.ns.Load()).UTC()
+	t := time.Unix(0, c.ns.Load()).UTC()
+	if f, _ := c.onRead.Load().(func(time.Time)); f != nil {
+		f(t)
+	}
+	return t
 }
+
+// OnRead installs (or, with nil, removes) an observer of product clock reads.
+func (c *Clock) OnRead(f func(time.Time)) { c.onRead.Store(f) }
 
 // Peek reads the clock without counting as a product read (harness use).
 func (c *Clock) Peek() time.Time { return time.Unix(0, c.ns.Load()).UTC() }
